@@ -39,6 +39,9 @@ pub enum Event {
         /// Forks to `target` so far, including this one.
         forks:  usize,
     },
+    /// The operand a JUMP / JUMPI at `ip` found for its target: the big-endian
+    /// bytes of the constant it folded to, or `None` if it is not a constant.
+    JumpOperand { ip: u32, word: Option<[u8; 32]> },
     /// An opcode asked for an error to be stored without failing itself.
     StoreErr { kind: String, loc: u32 },
     /// The outcome of `advance` for thread `tid`, whose instruction pointer was
